@@ -275,6 +275,18 @@ C02Local(sn, calls, res) ==
    /\ \A i \in D(sn) : PartAt(sn, i) # {})
   => ((\E p \in Parts(sn) : p.ord >= Partition(sn) /\ p.rev # u) => UpdateDeletes(sn, calls) # {})
 
+\* ... and the same for scaling: on a settled snapshot a vacant desired ordinal gets a pod created, and once none is
+\* vacant a pod outside the desired set gets deleted (OrderedReady does one thing per reconcile, creation first)
+C02LocalScale(sn, calls, res) ==
+  (/\ sn.set.cached /\ ~sn.set.paused /\ ~sn.set.deleting /\ sn.set.selectorOK
+   /\ sn.fresh.exists /\ sn.fresh.sameUid /\ ~sn.fresh.deleting /\ ~InTransit(sn.revs)
+   /\ FaultFree(calls) /\ res = "ok"
+   /\ \A p \in PodsOf(sn) : IsPartOf(sn, p) /\ p.owner = "self" /\ HealthyP(p))
+  => LET vacant == {i \in D(sn) : PartAt(sn, i) = {}}
+         extra  == {p \in Parts(sn) : p.ord \notin D(sn)} IN
+     /\ vacant # {} => \E k \in Idx(calls) : IsPodCreate(calls[k]) /\ Ints(calls[k])[1] \in vacant
+     /\ (vacant = {} /\ extra # {}) => \E k \in Idx(calls) : IsPodDelete(calls[k]) /\ Name(calls[k]) \in {p.name : p \in extra}
+
 (* C10 - ownership                                                                     *)
 ForeignPod(p) == p.owner \in {"other", "stale"}
 ForeignRev(x) == x.owner \in {"other", "stale"}
